@@ -59,7 +59,14 @@ type Exec struct {
 	Threads []*Thread
 	cur     int
 	Prefix  []int
-	Points  []PointInfo
+	// Guide (optional) names, by thread id, which thread takes each of the first
+	// len(Guide) steps; the resulting choice indices are recorded like any others.
+	// Used to drive a scenario into a prepared state before exploration starts.
+	Guide        []GuideStep
+	guideAt      int
+	guideSteps   int
+	GuidedPoints int // number of decisions taken under the guide
+	Points       []PointInfo
 	// Trace is the sequence (thread, kind, lock) of every step, for the determinism check.
 	Trace       []int
 	Deadlock    bool
@@ -170,6 +177,33 @@ func (x *Exec) decide(running int) int {
 			x.Diverged = "choice out of range while replaying prefix"
 			x.abort = true
 			return -1
+		}
+	} else if x.guideAt < len(x.Guide) {
+		// advance over guide steps whose goal has been reached
+		for x.guideAt < len(x.Guide) {
+			g := x.Guide[x.guideAt]
+			t := x.Threads[g.T]
+			reached := t.Done || (g.Until == "yield" && t.kind == "yield" && x.guideSteps > 0) || (g.Until == "step" && x.guideSteps > 0)
+			if !reached {
+				break
+			}
+			x.guideAt++
+			x.guideSteps = 0
+		}
+		if x.guideAt < len(x.Guide) {
+			choice = -1
+			for k := 0; k < n; k++ {
+				if order[k] == x.Guide[x.guideAt].T {
+					choice = k
+				}
+			}
+			if choice < 0 {
+				x.Diverged = "guided thread is not enabled"
+				x.abort = true
+				return -1
+			}
+			x.guideSteps++
+			x.GuidedPoints = i + 1
 		}
 	}
 	chosen := order[choice]
@@ -365,8 +399,22 @@ func (x *Exec) finish(t *Thread) {
 //
 //go:norace
 func Run(names []string, bodies []func(), prefix []int, maxPoints int, unlockPoint bool) *Exec {
+	return RunGuided(names, bodies, prefix, nil, maxPoints, unlockPoint)
+}
+
+// GuideStep: keep scheduling thread T until it has taken one step ("step"), is
+// parked at a Yield ("yield") or has finished ("done").
+type GuideStep struct {
+	T     int
+	Until string
+}
+
+// RunGuided is Run with a guide for the steps beyond the prefix.
+//
+//go:norace
+func RunGuided(names []string, bodies []func(), prefix []int, guide []GuideStep, maxPoints int, unlockPoint bool) *Exec {
 	epochCounter++
-	x := &Exec{Prefix: prefix, MaxPoints: maxPoints, UnlockPoint: unlockPoint, epoch: epochCounter, cur: -1}
+	x := &Exec{Prefix: prefix, Guide: guide, MaxPoints: maxPoints, UnlockPoint: unlockPoint, epoch: epochCounter, cur: -1}
 	x.Points = make([]PointInfo, 0, 64)
 	x.Trace = make([]int, 0, 192)
 	for i, b := range bodies {
